@@ -431,6 +431,9 @@ def build(dex, map_order=None, fix_header=True, return_layout=False, string_data
         # string data
         for s in P.slist:
             data, n16 = mutf8(s)
+            # dex.declared_utf16: optional {string: declared size}; the MUTF-8 bytes up to the NUL define the string, the size
+            # field is advisory (the runtime uses it for allocation only)
+            n16 = getattr(dex, "declared_utf16", {}).get(s, n16)
             S[T_STRING_DATA].add(uleb(n16) + data + b"\x00")
 
         # ---- layout -------------------------------------------------------------------
